@@ -81,7 +81,8 @@ def observe (size : Nat) (s : St) : String :=
   let blk := match s.blockTag with | none => "-" | some b => if b = "" then "-" else encodeStr b
   "|".intercalate [
     "err=" ++ err,
-    "marks=" ++ encodeStr ("; ".intercalate s.marks),
+    -- MarkTag.set_value appends with "; " unless the current value is empty
+    "marks=" ++ encodeStr (s.marks.foldl (fun acc m => if acc = "" then m else acc ++ "; " ++ m) ""),
     "block=" ++ blk,
     "base=" ++ encodeStr s.baseUnit,
     "imap=" ++ ",".intercalate (s.imap.map (fun e => toString e.1)),
